@@ -6,6 +6,8 @@ import (
 
 var errBase10 = errors.New("failed to convert to Base10")
 
+const maxUint64 = ^uint64(0)
+
 func ByteToBase10(b []byte) (n uint64, err error) {
 	base := uint64(10)
 
@@ -17,6 +19,12 @@ func ByteToBase10(b []byte) (n uint64, err error) {
 		case '0' <= d && d <= '9':
 			v = d - '0'
 		default:
+			n = 0
+			err = errBase10
+			return
+		}
+		if n > (maxUint64-uint64(v))/base {
+			// the value does not fit in 64 bits: fail instead of wrapping around
 			n = 0
 			err = errBase10
 			return
